@@ -1,1 +1,184 @@
-pub fn main(_args: &[String]) { eprintln!("conc driver not built yet"); std::process::exit(3); }
+//! Deterministic two-thread schedules on the REAL store, through public API only (DESIGN C03/C04):
+//! `Timer` is a public trait; a ParkTimer parks thread 1 at its n-th `timestamp()` call while thread 2 runs
+//! its operations to completion, then releases thread 1.  The outcome is compared with both sequential
+//! orders executed on fresh stores (the real code is its own oracle).
+//! stdin:  policy none|random <limit>
+//!         init <op>            (repeatable; executed sequentially first)     tick <n>
+//!         t1 <op>              park <n>        t2 <op> (repeatable)          final <op> (repeatable)
+//! ops:    get k | set k v cas ttl | delete k cas | add k v | replace k v | append k v | prepend k v | incr k d | decr k d
+//! stdout: concurrent <results>   seq12 <results>   seq21 <results>   linearizable true|false
+use memcrs::cache::cache::Cache;
+use memcrs::memcache::builder::{MemcacheStoreBuilder, MemcacheStoreConfig};
+use memcrs::memcache::eviction_policy::EvictionPolicy;
+use memcrs::memcache::store::MemcStore;
+use memcrs::server::timer::Timer;
+use std::io::BufRead;
+use std::sync::atomic::{AtomicU64, AtomicUsize, Ordering};
+use std::sync::{Arc, Condvar, Mutex};
+
+pub struct ParkTimer {
+    now: AtomicU64,
+    park_call: AtomicUsize,          // 0 = never park
+    t1_calls: AtomicUsize,
+    t1_id: Mutex<Option<std::thread::ThreadId>>,
+    state: Mutex<(bool, bool)>,      // (parked, released)
+    cv: Condvar,
+}
+impl ParkTimer {
+    fn new() -> Self { ParkTimer { now: AtomicU64::new(0), park_call: AtomicUsize::new(0), t1_calls: AtomicUsize::new(0), t1_id: Mutex::new(None), state: Mutex::new((false, false)), cv: Condvar::new() } }
+}
+impl Timer for ParkTimer {
+    fn timestamp(&self) -> u64 {
+        let me = std::thread::current().id();
+        let is_t1 = *self.t1_id.lock().unwrap() == Some(me);
+        if is_t1 {
+            let n = self.t1_calls.fetch_add(1, Ordering::SeqCst) + 1;
+            if n == self.park_call.load(Ordering::SeqCst) {
+                let mut st = self.state.lock().unwrap();
+                st.0 = true;
+                self.cv.notify_all();
+                while !st.1 { st = self.cv.wait(st).unwrap(); }
+            }
+        }
+        self.now.load(Ordering::SeqCst)
+    }
+}
+
+fn frame(op: u8, key: &[u8], extras: &[u8], value: &[u8], cas: u64) -> Vec<u8> {
+    let mut v = Vec::new();
+    v.push(0x80); v.push(op);
+    v.extend_from_slice(&(key.len() as u16).to_be_bytes());
+    v.push(extras.len() as u8); v.push(0);
+    v.extend_from_slice(&0u16.to_be_bytes());
+    v.extend_from_slice(&((key.len() + extras.len() + value.len()) as u32).to_be_bytes());
+    v.extend_from_slice(&0u32.to_be_bytes());
+    v.extend_from_slice(&cas.to_be_bytes());
+    v.extend_from_slice(extras); v.extend_from_slice(key); v.extend_from_slice(value);
+    v
+}
+
+// every operation goes decode -> BinaryHandler::handle_request -> encode, i.e. the real request path
+fn run_op(store: &Arc<MemcStore>, op: &[String]) -> String {
+    use tokio_util::codec::{Decoder, Encoder};
+    let k = op[1].as_bytes();
+    let val = |i: usize| op.get(i).cloned().unwrap_or_default().into_bytes();
+    let num = |i: usize| op.get(i).map(|s| s.parse::<u64>().unwrap()).unwrap_or(0);
+    let set_extras = |ttl: u64| { let mut e = vec![0u8; 4]; e.extend_from_slice(&(ttl as u32).to_be_bytes()); e };
+    let delta_extras = |d: u64| { let mut e = d.to_be_bytes().to_vec(); e.extend_from_slice(&0u64.to_be_bytes()); e.extend_from_slice(&0u32.to_be_bytes()); e };
+    let bytes = match op[0].as_str() {
+        "get" => frame(0x00, k, &[], &[], 0),
+        "set" => frame(0x01, k, &set_extras(num(4)), &val(2), num(3)),
+        "delete" => frame(0x04, k, &[], &[], num(2)),
+        "add" => frame(0x02, k, &set_extras(0), &val(2), 0),
+        "replace" => frame(0x03, k, &set_extras(0), &val(2), 0),
+        "append" => frame(0x0e, k, &[], &val(2), 0),
+        "prepend" => frame(0x0f, k, &[], &val(2), 0),
+        "incr" => frame(0x05, k, &delta_extras(num(2)), &[], 0),
+        "decr" => frame(0x06, k, &delta_extras(num(2)), &[], 0),
+        x => return format!("bad-op:{}", x),
+    };
+    let mut codec = memcrs::protocol::binary_codec::MemcacheBinaryCodec::new(1 << 20);
+    let mut buf = bytes::BytesMut::from(&bytes[..]);
+    let req = codec.decode(&mut buf).unwrap().unwrap();
+    let handler = memcrs::memcache_server::handler::BinaryHandler::new(store.clone());
+    let resp = handler.handle_request(req).unwrap();
+    let mut out = bytes::BytesMut::new();
+    codec.encode(resp, &mut out).unwrap();
+    let status = u16::from_be_bytes([out[6], out[7]]);
+    let extras = out[4] as usize;
+    let body = &out[24..];
+    if status != 0 { return format!("err:{}", status); }
+    match op[0].as_str() {
+        "get" => format!("hit:{}", String::from_utf8_lossy(&body[extras..])),
+        "incr" | "decr" => format!("val:{}", u64::from_be_bytes(body[..8].try_into().unwrap())),
+        _ => "ok".to_string(),
+    }
+}
+
+struct Scenario { policy: Option<u64>, init: Vec<Vec<String>>, ticks_after_init: u64, t1: Vec<String>, park: usize, t2: Vec<Vec<String>>, fin: Vec<Vec<String>> }
+
+fn build(policy: Option<u64>) -> (Arc<ParkTimer>, Arc<MemcStore>) {
+    let timer = Arc::new(ParkTimer::new());
+    let cfg = match policy { Some(l) => MemcacheStoreConfig::new(l, EvictionPolicy::Random), None => MemcacheStoreConfig::new(u64::MAX, EvictionPolicy::None) };
+    let cache: Arc<dyn Cache + Send + Sync> = MemcacheStoreBuilder::from_config(cfg, timer.clone());
+    (timer, Arc::new(MemcStore::new(cache)))
+}
+
+fn sequential(s: &Scenario, t1_first: bool) -> String {
+    let (timer, store) = build(s.policy);
+    for op in &s.init { run_op(&store, op); }
+    timer.now.fetch_add(s.ticks_after_init, Ordering::SeqCst);
+    let mut r1 = String::new();
+    let mut r2 = Vec::new();
+    if t1_first { r1 = run_op(&store, &s.t1); }
+    for op in &s.t2 { r2.push(run_op(&store, op)); }
+    if !t1_first { r1 = run_op(&store, &s.t1); }
+    let fin: Vec<String> = s.fin.iter().map(|op| run_op(&store, op)).collect();
+    format!("t1={} t2={} final={}", r1, r2.join(","), fin.join(","))
+}
+
+fn concurrent(s: &Scenario) -> String {
+    let (timer, store) = build(s.policy);
+    for op in &s.init { run_op(&store, op); }
+    timer.now.fetch_add(s.ticks_after_init, Ordering::SeqCst);
+    timer.park_call.store(s.park, Ordering::SeqCst);
+    let st1 = store.clone();
+    let tm1 = timer.clone();
+    let op1 = s.t1.clone();
+    let h = std::thread::spawn(move || {
+        *tm1.t1_id.lock().unwrap() = Some(std::thread::current().id());
+        run_op(&st1, &op1)
+    });
+    // wait until thread 1 is parked (or finished without reaching the park point)
+    let mut waited = 0;
+    loop {
+        { let st = timer.state.lock().unwrap(); if st.0 { break; } }
+        if h.is_finished() { break; }
+        std::thread::sleep(std::time::Duration::from_millis(2));
+        waited += 1;
+        if waited > 2500 { break; }
+    }
+    let parked = timer.state.lock().unwrap().0;
+    let mut r2 = Vec::new();
+    // watchdog: an operation of thread 2 that does not return while thread 1 is parked is a C16 violation
+    for op in &s.t2 {
+        let st2 = store.clone();
+        let op2 = op.clone();
+        let h2 = std::thread::spawn(move || run_op(&st2, &op2));
+        let mut n = 0;
+        while !h2.is_finished() && n < 1000 { std::thread::sleep(std::time::Duration::from_millis(2)); n += 1; }
+        if h2.is_finished() { r2.push(h2.join().unwrap()); } else { r2.push("BLOCKED".to_string()); }
+    }
+    { let mut st = timer.state.lock().unwrap(); st.1 = true; timer.cv.notify_all(); }
+    let r1 = h.join().unwrap();
+    let fin: Vec<String> = s.fin.iter().map(|op| run_op(&store, op)).collect();
+    format!("t1={} t2={} final={}{}", r1, r2.join(","), fin.join(","), if parked { "" } else { " (park point not reached)" })
+}
+
+pub fn main(_args: &[String]) {
+    let stdin = std::io::stdin();
+    let mut s = Scenario { policy: None, init: vec![], ticks_after_init: 0, t1: vec![], park: 0, t2: vec![], fin: vec![] };
+    for l in stdin.lock().lines() {
+        let l = l.unwrap();
+        let w: Vec<String> = l.split_whitespace().map(|x| x.to_string()).collect();
+        if w.is_empty() { continue; }
+        match w[0].as_str() {
+            "policy" => { if w[1] == "random" { s.policy = Some(w[2].parse().unwrap()); } }
+            "init" => s.init.push(w[1..].to_vec()),
+            "tick" => s.ticks_after_init += w[1].parse::<u64>().unwrap(),
+            "t1" => s.t1 = w[1..].to_vec(),
+            "park" => s.park = w[1].parse().unwrap(),
+            "t2" => s.t2.push(w[1..].to_vec()),
+            "final" => s.fin.push(w[1..].to_vec()),
+            _ => {}
+        }
+    }
+    let c = concurrent(&s);
+    let c_cmp = c.replace(" (park point not reached)", "");
+    let a = sequential(&s, true);
+    let b = sequential(&s, false);
+    println!("concurrent {}", c);
+    println!("seq12 {}", a);
+    println!("seq21 {}", b);
+    println!("linearizable {}", c_cmp == a || c_cmp == b);
+}
